@@ -34,8 +34,9 @@ TRUSTED = [
     're.split(r\'(-?\\d*\\.?\\d+)\') is modelled at character level for ASCII input (greedy with backtracking: longest digit run, '
     'optional .digits); str(radius) for numeric radii is Python\'s',
     'Print Assumptions lists PrimFloat.float (the primitive binary64 type) for theorems that mention the generated float table',
-    'the triangle inequality over the reals for the Euclidean metric is stated sqrt-free over Z (p^2 >= d2(A,B), q^2 >= d2(B,C) -> '
-    '(p+q)^2 >= d2(A,C)); no real-number axioms are used',
+    'C19_euclidean_is_metric_over_R uses the Coq standard library real numbers: axioms ClassicalDedekindReals.sig_forall_dec, '
+    'ClassicalDedekindReals.sig_not_dec, FunctionalExtensionality.functional_extensionality_dep (all other theorems are axiom-free; '
+    'the same triangle inequality is also proved sqrt-free over Z without axioms)',
 ]
 ASSUMPTIONS = ['ASCII distance strings (Python \\d and float() also accept other Unicode digits)',
                'positive finite cell sizes; numeric radii whose str() is positional (no exponent form)',
@@ -46,16 +47,16 @@ PARTIAL = [
     'checked by the oracle on generated triples incl. poles / antimeridian / antipodes with tolerance 2e-7*R',
     'great-circle symmetry is proved for the formula over any arithmetic in which subtraction is antisymmetric, halving and sin are odd '
     'and multiplication commutes (visible hypotheses), and is checked bit-for-bit on floats by the oracle',
-    'Euclidean triangle inequality: proved in the sqrt-free integer form only (no theorem about the rounded float results; the oracle '
-    'allows 4 ulp)',
+    'Euclidean / Manhattan metric axioms are proved for the exact formulas (R, Z); there is no theorem about the rounded float results '
+    '(the triangle inequality can fail by an ulp in floats; the oracle allows 4 ulp)',
     '_get_distance: the tokenizer is proved lossless and terminating, and the accept/reject decision is characterised in terms of its '
     'token list; completeness for the grammar number[unit] is proved for unit suffixes without digits, dots and minus signs',
     'calc_cellsize: the resolution read from attrs/coords (xrspatial.utils) is modelled (res pass-through, (max-min)/(n-1)) and '
     'corresponded, no theorem',
 ]
-LEVEL_TEXT = ('Proved for all inputs (Coq, no axioms): Manhattan distance over Z is a metric (symmetric, zero iff coincident, triangle '
-              'inequality); squared Euclidean distance over Z is symmetric, zero iff coincident, and satisfies the sqrt-free triangle '
-              'inequality; the great-circle range validation is exactly the decision rule |lon|<=180, |lat|<=90 (bounds generated from the '
+LEVEL_TEXT = ('Proved for all inputs (Coq; axiom-free except the one theorem over R): Manhattan distance over Z is a metric (symmetric, zero iff coincident, triangle '
+              'inequality); the Euclidean formula over R is a metric (stdlib real axioms) and its square over Z satisfies the sqrt-free triangle '
+              'inequality axiom-free; the great-circle range validation is exactly the decision rule |lon|<=180, |lat|<=90 (bounds generated from the '
               'source) and the haversine term is symmetric under exchanging the points; for ALL half-widths the ellipse kernel has odd '
               'shape (2hh+1)x(2hw+1), equals the ellipse mask, is symmetric under both flips, has centre 1, and the annulus is outer minus '
               'the centred inner kernel with every cell in {0,1}; the distance-string tokenizer is lossless/terminating and _get_distance '
